@@ -21,6 +21,7 @@ func init() {
 			"independent vocabulary: digits 〇一二三四五六七八九, months 正二三四五六七八九十冬腊 with optional 闰, days 初一..初十 十一..十九 二十 廿一..廿九 三十",
 		},
 		Gen: c19Gen, Run: c19Run,
+		BlockKind: "civil", BlockQuick: [2]int{6, 8}, BlockThorough: [2]int{0, 25},
 		Exhaustive: func(tier string) bool { return false },
 		MinEvals:   map[string]int64{"quick": 10000000, "thorough": 30000000},
 		Chunks:     128,
